@@ -59,6 +59,11 @@ pub struct ServerCase {
     /// then close their sending side: they get nothing, hold nobody up and leave no thread behind
     #[serde(default)]
     pub truncated: usize,
+    /// connections that send a head announcing 2000 body bytes and 500 of them, get their answer
+    /// (the handler does not read) and then stay silent until the bursts are over: the thread that
+    /// answered waits for the rest of that body, everybody else goes on (two application threads)
+    #[serde(default)]
+    pub half_body: usize,
     pub tape: Vec<u8>,
 }
 
@@ -83,7 +88,11 @@ pub fn server_strategy(max_burst: usize, for_c20: bool) -> BoxedStrategy<ServerC
             let mid_unblock = tape.len() % 7 == 5;
             let apis = if stray_unblock { vec![2] } else if mid_unblock { vec![3] } else { apis };
             let truncated = if tape.len() % 5 == 1 { 1 + tape.len() % 2 } else { 0 };
-            ServerCase { bursts, reqs_per_conn, handlers, apis, stalled: if idle_ms > 0 { 0 } else { stalled }, trickle, idle_ms, drop_mode, hold, body_close, stray_unblock, mid_unblock, truncated, tape }
+            let half_body = if !for_c20 && tape.len() % 11 == 6 { 1 } else { 0 };
+            if half_body > 0 {
+                return ServerCase { bursts, reqs_per_conn, handlers: 2, apis: vec![0], stalled: 0, trickle: 0, idle_ms: 0, drop_mode, hold: false, body_close: true, stray_unblock: false, mid_unblock: false, truncated, half_body, tape };
+            }
+            ServerCase { bursts, reqs_per_conn, handlers, apis, stalled: if idle_ms > 0 { 0 } else { stalled }, trickle, idle_ms, drop_mode, hold, body_close, stray_unblock, mid_unblock, truncated, half_body, tape }
         })
         .boxed()
 }
@@ -264,13 +273,25 @@ pub fn run_server_case(prop: &'static str, case: &ServerCase) -> Verdict {
                 stalled_clients.push(cl);
             }
         }
+        // a client that stops in the middle of a body nobody reads: it has its answer, and the
+        // application thread that gave it is waiting for the rest of that body
+        let mut half_body_clients = vec![];
+        for k in 0..c.half_body {
+            if let Ok(cl) = listener.connect() {
+                let mut wire = format!("POST /r{} HTTP/1.1\r\nHost: h\r\nContent-Length: 2000\r\n\r\n", 800000 + k).into_bytes();
+                wire.extend_from_slice(&[b'h'; 500]);
+                cl.send(&wire);
+                cl.wait_output(|o, closed| count_finals(o).0 >= 1 || closed);
+                half_body_clients.push(cl);
+            }
+        }
         let mut next_id = 0usize;
         for (bi, b) in c.bursts.iter().copied().enumerate() {
             ph.store(10 + bi, Ordering::SeqCst);
             // (all requests of the earlier bursts have been delivered and answered by now)
             // (every other time the connection with the body is a persistent one, and its further
             // requests follow the unread body)
-            let body_keep = c.body_close && c.tape.len() % 2 == 0;
+            let body_keep = c.body_close && (c.tape.len() % 2 == 0 || c.half_body > 0);
             let burst_total = if c.body_close && !body_keep { (b - 1) * c.reqs_per_conn + 1 } else { b * c.reqs_per_conn };
             hold_target.store(next_id + c.handlers.min(burst_total), Ordering::SeqCst);
             let gate = Arc::new(Gate { st: rt::sync::Mutex::new(GateSt::default()), cv: rt::sync::Condvar::new() });
@@ -400,6 +421,9 @@ pub fn run_server_case(prop: &'static str, case: &ServerCase) -> Verdict {
                     viol("threads-not-reclaimed", format!("{} library threads alive {} ms (+20 s) after a burst of {} connections; baseline is accept + 4", live, c.idle_ms, b));
                 }
             }
+        }
+        for cl in &half_body_clients {
+            cl.close_write();
         }
         ph.store(30, Ordering::SeqCst);
         hold_target.store(0, Ordering::SeqCst);
@@ -592,6 +616,7 @@ pub fn run_server_case(prop: &'static str, case: &ServerCase) -> Verdict {
         .class_if(case.stray_unblock, "stray-unblock-then-try_recv-only")
         .class_if(case.mid_unblock, "unblock-while-iterators-are-stepped")
         .class_if(case.truncated > 0, "client-gives-up-inside-a-small-body")
+        .class_if(case.half_body > 0, "client-stalls-inside-an-unread-body")
         .class_if(case.trickle > 0, "light-traffic-after-burst")
         .class_if(case.apis.iter().any(|a| *a != 0), "mixed-receive-apis")
         .class_if(o.lib_threads_spawned > 5, "extra-workers-spawned")
